@@ -13,7 +13,7 @@ import (
 )
 
 func init() {
-	props["C18"] = &propRunner{gen: genC18, rule: "timed histories of 10-80 requests over 1-4 identifiers (incl. case variants) on a virtual clock with 2^-9 s ticks and integer rates (so float64 arithmetic in x/time/rate is exact): bursts at one instant, exact refill instants, idle gaps crossing ExpiresIn (cleanup) x configs (rate, burst or default burst, ExpiresIn with ExpiresIn*rate >= burst), through the RateLimiter middleware; non-trivial = history with at least one refusal and at least one gap longer than ExpiresIn; distinct by (config, history)"}
+	props["C18"] = &propRunner{gen: genC18, rule: "timed histories of 10-80 requests over 1-4 identifiers (incl. case variants) on a virtual clock with 2^-9 s ticks and rates 0.5 ... 64 per second that are multiples of 1/1024 per tick (so float64 arithmetic in x/time/rate is exact): bursts at one instant, exact refill instants, idle gaps crossing ExpiresIn (cleanup) x configs (rate, burst or default burst, ExpiresIn with ExpiresIn*rate >= burst), through the RateLimiter middleware; non-trivial = history with at least one refusal and at least one gap longer than ExpiresIn; distinct by (config, history)"}
 }
 
 const c18Tick = 1953125 * time.Nanosecond // 2^-9 s
@@ -22,14 +22,20 @@ func genC18(rng *rand.Rand, n int, emit func(Case), dist map[string]int) {
 	base := time.Date(2024, 1, 1, 0, 0, 0, 0, time.UTC)
 	ids := []string{"10.0.0.1", "10.0.0.2", "2001:db8::1", "2001:DB8::1", "key-A", "key-a"}
 	for it := 0; it < n; it++ {
-		R := []int{1, 2, 4, 8, 16, 64}[rng.Intn(6)]
+		// rate = A tokens per Bt ticks (512 ticks per second): integers, and 0.5 / 1.5 / 2.5 per second as x/1024 ticks
+		rt := [][2]int{{1, 512}, {2, 512}, {4, 512}, {8, 512}, {16, 512}, {64, 512}, {1, 1024}, {3, 1024}, {5, 1024}}[rng.Intn(9)]
+		A, Bt := rt[0], rt[1]
+		rateF := float64(A) * 512 / float64(Bt)
 		burstCfg := []int{0, 1, 2, 3, 5, 10}[rng.Intn(6)]
 		burst := burstCfg
 		if burst == 0 {
-			burst = R // int(rate)
+			burst = A * 512 / Bt // documented default: int(rate), i.e. rounded down
+			if burst == 0 {
+				burstCfg, burst = 1, 1 // (a store that can never admit anything is not interesting)
+			}
 		}
-		// ExpiresIn in ticks with ExpiresIn*rate >= burst:  E/512 * R >= burst
-		minE := (burst*512 + R - 1) / R
+		// ExpiresIn in ticks with ExpiresIn*rate >= burst:  E * A/Bt >= burst
+		minE := (burst*Bt + A - 1) / A
 		E := minE + rng.Intn(3)*rng.Intn(600)
 		if E == 0 {
 			E = 1
@@ -37,7 +43,7 @@ func genC18(rng *rand.Rand, n int, emit func(Case), dist map[string]int) {
 		now := int64(rng.Intn(1000))
 		start := now
 		store := middleware.NewRateLimiterMemoryStoreWithConfig(middleware.RateLimiterMemoryStoreConfig{
-			Rate: rate.Limit(R), Burst: burstCfg, ExpiresIn: time.Duration(E) * c18Tick})
+			Rate: rate.Limit(rateF), Burst: burstCfg, ExpiresIn: time.Duration(E) * c18Tick})
 		store.VerifSetClock(func() time.Time { return base.Add(time.Duration(now) * c18Tick) })
 		ran := false
 		rlCfg := middleware.RateLimiterConfig{Store: store,
@@ -70,8 +76,8 @@ func genC18(rng *rand.Rand, n int, emit func(Case), dist map[string]int) {
 		ref := map[string]*bucket{}
 		ok, why := true, ""
 		refusals, longGaps := 0, 0
-		refill := int64(512 / R)
-		human := fmt.Sprintf("rate=%d/s burst=%d(cfg %d) expiresIn=%d ticks; events(id@tick->admitted):", R, burst, burstCfg, E)
+		refill := int64((Bt + A - 1) / A) // ticks until one more token
+		human := fmt.Sprintf("rate=%v/s burst=%d(cfg %d) expiresIn=%d ticks; events(id@tick->admitted):", rateF, burst, burstCfg, E)
 		for k := 0; k < nev; k++ {
 			switch rng.Intn(10) {
 			case 0, 1, 2, 3:
@@ -90,7 +96,7 @@ func genC18(rng *rand.Rand, n int, emit func(Case), dist map[string]int) {
 			req := httptest.NewRequest(http.MethodGet, "/", nil)
 			req.Header.Set("X-Id", id)
 			wrec := httptest.NewRecorder()
-			c := e.NewContext(req, wrec)
+			c := recycledContext(e, req, wrec)
 			ran = false
 			err := h(c)
 			status := 0
@@ -122,19 +128,19 @@ func genC18(rng *rand.Rand, n int, emit func(Case), dist map[string]int) {
 			// reference bucket of this identifier
 			bk := ref[id]
 			if bk == nil {
-				bk = &bucket{tok: int64(burst) * 512, last: now}
+				bk = &bucket{tok: int64(burst) * int64(Bt), last: now}
 				ref[id] = bk
 			}
-			avail := bk.tok + int64(R)*(now-bk.last)
-			if avail > int64(burst)*512 {
-				avail = int64(burst) * 512
+			avail := bk.tok + int64(A)*(now-bk.last) // in units of 1/Bt token
+			if avail > int64(burst)*int64(Bt) {
+				avail = int64(burst) * int64(Bt)
 			}
-			want := avail >= 512
+			want := avail >= int64(Bt)
 			if want {
-				bk.tok, bk.last = avail-512, now
+				bk.tok, bk.last = avail-int64(Bt), now
 			}
 			if admitted != want {
-				ok, why = false, fmt.Sprintf("event %d: identifier %q at tick %d admitted=%v, but its own allowance (%d/512 tokens) says %v", k, id, now, admitted, avail, want)
+				ok, why = false, fmt.Sprintf("event %d: identifier %q at tick %d admitted=%v, but its own allowance (%d/%d tokens) says %v", k, id, now, admitted, avail, Bt, want)
 			}
 		}
 		// window bound per identifier: admitted in [ti, tj] <= burst + rate*(tj-ti)
@@ -148,18 +154,18 @@ func genC18(rng *rand.Rand, n int, emit func(Case), dist map[string]int) {
 					if rs[j].ok {
 						cnt++
 					}
-					if cnt*512 > int64(burst)*512+int64(R)*(rs[j].t-rs[i].t) {
-						ok, why = false, fmt.Sprintf("identifier %q: %d requests admitted between ticks %d and %d, more than burst %d + rate %d/s x %d/512 s", id, cnt, rs[i].t, rs[j].t, burst, R, rs[j].t-rs[i].t)
+					if cnt*int64(Bt) > int64(burst)*int64(Bt)+int64(A)*(rs[j].t-rs[i].t) {
+						ok, why = false, fmt.Sprintf("identifier %q: %d requests admitted between ticks %d and %d, more than burst %d + rate %v/s x %d/512 s", id, cnt, rs[i].t, rs[j].t, burst, rateF, rs[j].t-rs[i].t)
 					}
 				}
 			}
 		}
-		in := L(I(R), I(burst), I(E), I64(start), L(evs...))
+		in := L(I(A), I(burst), I(E), I64(start), L(evs...), I(Bt))
 		cs := Case{In: in, Out: L(outs...), Ok: ok, Why: why, Human: human}
 		if refusals > 0 && longGaps > 0 {
 			cs.Key = Show(in)
 		}
-		dist[fmt.Sprintf("rate_%d", R)]++
+		dist[fmt.Sprintf("rate_%v", rateF)]++
 		dist[fmt.Sprintf("identifiers_%d", nids)]++
 		if burstCfg == 0 {
 			dist["default_burst"]++
